@@ -14,6 +14,7 @@ Scheduled calls (a goroutine of the harness, parked before the call):
                              → begin.mid | advance.loop | blocked | return:<result>
   state                      → nx=<nextTxnTs> td=<txnMark.doneUntil> tl=<txnMark.lastIndex>
                                rd=<readMark.doneUntil> rl=<readMark.lastIndex> ct=<len committedTxns>
+  setv <version> <key> <val> DB.SetVersionedEntry (plain write at an explicit version), before a reopen
   reopen                     Close + Open of the same directory (every transaction must be closed)
   seq | sched | stress …     case headers / the free-running validation run (→ ok)
 
@@ -320,8 +321,25 @@ def reopen (d : DSt) : DSt × String :=
   ({ d with s := seededSt d.c (maxTs d.s.store) d.s.store, committing := [], doneOk := [], specs := [],
             scheduled := [], tids := [], persisted := pers }, "ok\tok")
 
+/-- `setv`: one entry at an explicit version through the plain-write API (`SetVersionedEntry`), only
+between sessions' transactions and — in every generated case — right before a `reopen`, whose
+`seededSt` is then an initial state of the model with that entry recovered. -/
+def setv (d : DSt) (k v : Bytes) (ver : Nat) : DSt × String :=
+  let allDone := d.tids.all (fun id =>
+    match d.s.thr id with
+    | some t => t.pc == .finished
+    | none => true)
+  if !allDone then (d, "unsafe\tunsafe") else
+  if ver = 0 then (d, "bad-op") else
+  ({ d with s := { d.s with store := { key := k, ts := ver, val := some v } :: d.s.store },
+            persisted := (k, some v) :: d.persisted.filter (fun p => p.1 ≠ k) }, "ok\tok")
+
 def stepOp (d : DSt) (toks : List String) : DSt × String :=
   match toks with
+  | ["setv", ver, k, v] =>
+    match bytesOf? k, bytesOf? v, natOf? ver with
+    | some k, some v, some ver => setv d k v ver
+    | _, _, _ => (d, "bad-op")
   | ["reopen"] => reopen d
   | ["drain"] => drain d
   | ["seq"] => (d, "ok\t*")
